@@ -103,6 +103,62 @@ class CostExec(SymExec):
             self.env.setdefault('self.' + k, v)
 
     # ------------------------------------------------------------------ helpers
+    def max_over_table(self, call):
+        """max(self.T[k] for k in C)  with  self.T = {k: abs(w) for k, w in FULL.items()}  bound once (in the method that drives the rounds) and C a
+        sub-dictionary of FULL that keeps FULL's values (`filter(FULL, ..)` building `ans[k] = FULL[k]`): the largest |weight| among the keys of C -
+        the same number `max(abs(C[k]) for k in C)` is.  -> a 'maxof' value over |elemof:C|, or None"""
+        g = call.args[0]
+        if len(g.generators) != 1 or g.generators[0].ifs or not isinstance(g.generators[0].target, ast.Name) or not isinstance(g.generators[0].iter, ast.Name):
+            return None
+        k, C = g.generators[0].target.id, g.generators[0].iter.id
+        e = g.elt
+        if not (isinstance(e, ast.Subscript) and isinstance(e.value, ast.Attribute) and U(e.value.value) == 'self' and U(e.slice) == k and C in self.fi.params):
+            return None
+        attr = e.value.attr
+        if self.cls is None:
+            return None
+        rel, cname = self.cls
+        mod = self.world.mods[rel]
+        binds = [(q, a) for q, f in mod.funcs.items() if q.startswith(cname + '.') for a in ast.walk(f.node)
+                 if isinstance(a, ast.Assign) and any(U(t) == 'self.' + attr for t in a.targets)]
+        if len(binds) != 1:
+            return None
+        q, a = binds[0]
+        v = a.value
+        if not (isinstance(v, ast.DictComp) and len(v.generators) == 1 and not v.generators[0].ifs and isinstance(v.generators[0].target, ast.Tuple)
+                and len(v.generators[0].target.elts) == 2 and isinstance(v.generators[0].iter, ast.Call) and U(v.generators[0].iter.func).endswith('.items')):
+            return None
+        kk, ww = [U(x) for x in v.generators[0].target.elts]
+        FULL = U(v.generators[0].iter.func.value)
+        if U(v.key) != kk or U(v.value).replace(' ', '') not in ('abs(%s)' % ww, 'np.abs(%s)' % ww):
+            return None
+        # the caller hands over FULL itself or a value-preserving filter of it
+        driver = mod.funcs[q]
+        ok = False
+        for c in ast.walk(driver.node):
+            if isinstance(c, ast.Call) and U(c.func) == 'self.' + self.fi.name and c.args:
+                a0 = c.args[0]
+                src = a0
+                if isinstance(a0, ast.Name):
+                    ds = [x.value for x in ast.walk(driver.node) if isinstance(x, ast.Assign) and len(x.targets) == 1 and U(x.targets[0]) == a0.id]
+                    src = ds[-1] if ds else a0
+                if U(src) == FULL:
+                    ok = True
+                elif isinstance(src, ast.Call) and src.args and U(src.args[0]) == FULL:
+                    h = mod.funcs.get(U(src.func).split('.')[-1])
+                    if h is not None and h.params:
+                        p0 = h.params[0]
+                        keeps = [x for x in ast.walk(h.node) if isinstance(x, ast.Assign) and isinstance(x.targets[0], ast.Subscript)
+                                 and U(x.value).replace(' ', '') == '%s[%s]' % (p0, U(x.targets[0].slice))]
+                        others = [x for x in ast.walk(h.node) if isinstance(x, ast.Assign) and isinstance(x.targets[0], ast.Subscript) and x not in keeps]
+                        ok = bool(keeps) and not others
+        if not ok:
+            return None
+        note = 'A-T: `self.%s` holds |weight| of every candidate of the run (%s); the candidates of a round are a value-preserving selection of them' % (attr, q)
+        if note not in self.world.assumptions:
+            self.world.assumptions.append(note)
+        return tagged('maxof', call, D=abs_of(Alg(Rat.sym('elemof:' + C)), e))
+
     def check_noise_slices(self, e, tn, dexpr):
         """noise drawn ONCE into a buffer and added to the releases of a loop: every release must take its own, disjoint part of the buffer.
         Recognised: `N[end - x.size:end]` with `end` running over np.cumsum(sizes) alongside the loop's items, sizes = [D.size(p) for p in items]
@@ -459,6 +515,10 @@ class CostExec(SymExec):
             v = self.value(call.args[0])
             if isinstance(v, Alg):
                 return abs_of(v, call.args[0])
+        if name == 'max' and len(call.args) == 1 and isinstance(call.args[0], (ast.GeneratorExp, ast.ListComp)):
+            mt = self.max_over_table(call)
+            if mt is not None:
+                return mt
         if name == 'max' and len(call.args) == 1:
             v = self.value(call.args[0])
             t = tag_of(v, 'valuesof') or tag_of(v, 'dictof')
